@@ -29,7 +29,12 @@ ASSUMPTION = ("T-hv: the IR's numpy primitives mean what Model/HvIR.lean says (a
               "_is_pareto_front(., assume_unique_lexsorted=True) inside _compute_exclusive_hv / compute_hypervolume is the hand model's frontSorted "
               "(its own translation is C12Gen's gen_front_assume_sorted; the bridge between the two hand models of the front is not proved); "
               "IEEE: a remaining non-finite coordinate makes hv non-finite (modelled as in the hand model, sampled by the tie); hssp.py and the rank "
-              "functions: only their normalised text is pinned against the reviewed snapshot Lemmas/HvExpected.lean")
+              "functions: only their normalised text is pinned against the reviewed snapshot Lemmas/HvExpected.lean; "
+              "hssp.py part 2: _solve_hssp is interpreted (index-array primitives of Model/HsspIR.lean: np.unique(return_index) = uniqueLex + first positions, "
+              "m[idx] = True, ~m, a[mask], a[idx] (an out-of-range index is ignored / reads 0 where numpy raises), a[:n], np.setdiff1d, np.append); "
+              "_solve_hssp_on_unique_loss_vals is a record of holes over a fixed loop skeleton (first-maximum argmax, which arrays drop the pick, break at "
+              "the last pick, the slice handed to the lazy update, result through rank_i_indices) - statement order and everything else of its body is "
+              "checked syntactically by the translator; _lazy_contribs_update, _solve_hssp_2d and the two rank functions remain text pins")
 
 
 def regenerate(chk: core.Check | None = None) -> dict[str, Any] | None:
@@ -44,6 +49,17 @@ def regenerate(chk: core.Check | None = None) -> dict[str, Any] | None:
             raise
         ch2 = False
         chk.broke("translation", {"translator": "T-hv", "source": thv.WFG, "why": ("%s: %s" % (type(e).__name__, e))[:600]})
+    try:
+        text_h, info_h = thv.translate_hssp(core.REPO)
+        ch3 = core.write_if_changed(os.path.join(core.LEAN_DIR, thv.HSSP_METHODS_REL), text_h)
+        if chk is not None:
+            chk.translated.append("optuna/_hypervolume/hssp.py: _solve_hssp (one index-array expression), _solve_hssp_on_unique_loss_vals (greedy-loop record; "
+                                  "_lazy_contribs_update and _solve_hssp_2d are parameters) -> lean/OptunaVerif/Generated/HsspMethods.lean%s" % (" (changed)" if ch3 else ""))
+            chk.extra["hssp_ir"] = {k: v[:500] for k, v in info_h["fields"].items()}
+    except (thv.Untranslatable, SyntaxError, OSError, IndexError, AttributeError, KeyError, ValueError) as e:
+        if chk is None:
+            raise
+        chk.broke("translation", {"translator": "T-hv", "source": thv.HSSP, "why": ("%s: %s" % (type(e).__name__, e))[:600]})
     if chk is not None:
         chk.translated.append("optuna/_hypervolume/wfg.py: _compute_2d, _compute_hv, _compute_exclusive_hv, compute_hypervolume -> "
                               "lean/OptunaVerif/Generated/HvMethods.lean%s; normalised text of these + hssp.py (4 functions) + _fast_non_domination_rank / "
